@@ -433,6 +433,11 @@ class C12(Check):
             for extra in (b"1", b"11", b"z", b"1111111", b"11111111111"):
                 add("addr_from_str " + hx(t + extra), "text-extend")
                 add("addr_from_str " + hx(extra + t), "text-extend")
+            # white space and line terminators around an otherwise valid text: only the canonical spelling is an address
+            for pre, post in ((b"", b"\n"), (b"", b"\r\n"), (b"", b"\r"), (b"\n", b""), (b"", b"\t"), (b"\t", b""), (b"", b"\n\n"),
+                              (b" ", b" "), (b"", b"\x0b"), (b"", b"\x0c"), (b"\xef\xbb\xbf", b""), (b"", b"\xc2\xa0")):
+                add("addr_from_str " + hx(pre + t + post), "text-whitespace")
+                add("b58_dec " + hx(pre + t + post), "text-whitespace")
         add("b58_dec -", "text-empty")
         add("addr_from_str -", "text-empty")
         add("b58_enc -", "text-empty")
